@@ -7,7 +7,7 @@ import os as _os
 import shutil as _sh
 use_formula_memo()
 
-POOL = ["M", "M_BAK1", "N", "M_BAK2"]
+POOL = ["M", "M_BAK1", "N", "M_BAK2", "2 bad", "_hidden"]      # the last two are invalid names: operations using them must be refused
 OPS = ["new_model(name)", "read_model(file, name)", "rename(name)", "rename(name, rename_old=True)", "close", "edit one model", "new_model()", "evaluate"]
 
 
@@ -67,7 +67,7 @@ def registry(t0: int, t1: int, t2: int, t3: int, n0: int, o1: int, a1: int, n1: 
             o = pick(o, -1, len(OPS) - 1)
             if o < 0:
                 break
-            n = pick(n, 0, 3) if o in (0, 1, 2, 3) else 0
+            n = pick(n, 0, 5) if o in (0, 1, 2, 3) else 0
             if o in (2, 3, 4, 5, 7):
                 if not live:
                     break
@@ -77,16 +77,30 @@ def registry(t0: int, t1: int, t2: int, t3: int, n0: int, o1: int, a1: int, n1: 
             name = POOL[n]
             label("%s %s %s" % (OPS[o], ("model#%d" % a) if o in (2, 3, 4, 5, 7) else "", name if o in (0, 1, 2, 3) else ""))
             if o == 0:
-                with notrace():
-                    m = _mk(name, 0)
-                m.S.tok = toks[i]
-                live.append([m, toks[i], 0])
+                r = call(mx.new_model, name)
+                if n >= 4:
+                    if not check(r[0] == "err", "new_model with an invalid name must be refused", lambda: r):
+                        return False
+                else:
+                    if not check(r[0] == "ok", "new_model raised", lambda: r):
+                        return False
+                    with notrace():
+                        m = r[1]
+                        S = m.new_space("S")
+                        S.tok = 0
+                        S.new_cells("f", formula="lambda t: tok * 2 + t")
+                    m.S.tok = toks[i]
+                    live.append([m, toks[i], 0])
             elif o == 1:
                 r = call(mx.read_model, _os.path.join(base, "saved"), name=name)
-                if not check(r[0] == "ok", "read_model raised", lambda: r):
-                    return False
-                r[1].S.tok = toks[i]
-                live.append([r[1], toks[i], 0])
+                if n >= 4:
+                    if not check(r[0] == "err", "read_model under an invalid name must be refused", lambda: r):
+                        return False
+                else:
+                    if not check(r[0] == "ok", "read_model raised", lambda: r):
+                        return False
+                    r[1].S.tok = toks[i]
+                    live.append([r[1], toks[i], 0])
             elif o in (2, 3):
                 r = call(live[a][0].rename, name, rename_old=(o == 3))
                 if r[0] == "err":
@@ -121,13 +135,14 @@ def registry(t0: int, t1: int, t2: int, t3: int, n0: int, o1: int, a1: int, n1: 
 NO = len(OPS)
 QUERIES = [
     Query("registry", registry,
-          pre=["0 <= n0 < 4", "-1 <= o1 < %d" % NO, "-1 <= o2 < %d" % NO, "-1 <= o3 < %d" % NO, "0 <= a1 < 3", "0 <= a2 < 3", "0 <= a3 < 3", "0 <= n1 < 4", "0 <= n2 < 4", "0 <= n3 < 4"],
-          partitions=lambda tier, seed: ([dict(n0=n0_, o1=1, n1=k, o2=[0, 4], o3=-1) for n0_ in (0, 1) for k in range(4)] + [dict(n0=0, o1=1, n1=k, o2=[5, NO - 1], o3=-1) for k in (0, 1)] +
+          pre=["0 <= n0 < 4", "-1 <= o1 < %d" % NO, "-1 <= o2 < %d" % NO, "-1 <= o3 < %d" % NO, "0 <= a1 < 3", "0 <= a2 < 3", "0 <= a3 < 3", "0 <= n1 < 6", "0 <= n2 < 5", "0 <= n3 < 6"],
+          partitions=lambda tier, seed: ([dict(n0=0, o1=1, n1=k, o2=b, o3=-1) for k in (0, 1, 4) for b in range(5)] + [dict(n0=1, o1=1, n1=0, o2=b, o3=-1) for b in (0, 2, 3)] +
+                                         [dict(n0=0, o1=1, n1=k, o2=3, o3=-1) for k in (2, 3, 5)] + [dict(n0=0, o1=1, n1=0, o2=[5, NO - 1], o3=-1)] +
                                          [dict(n0=0, o1=a, o2=[0, NO - 1], o3=-1) for a in range(NO) if a != 1] + [dict(n0=1, o1=a, o2=[0, 4], o3=-1) for a in (0, 3)] +
                                          [dict(n0=0, o1=0, n1=0, o2=b, n2=0, o3=[2, 4]) for b in (0, 1, 3)]) if tier == "quick" else
           [dict(n0=n, o1=a, o2=b) for n in (0, 1) for a in range(NO) for b in range(NO)],
           natives=[dict(t0=1, t1=2, t2=3, t3=4, n0=0, o1=a, a1=0, n1=na, o2=b, a2=ab, n2=nb, o3=c, a3=ac, n3=nc) for (a, na, b, ab, nb, c, ac, nc) in
-                   ((0, 0, 0, 0, 0, 4, 1, 0), (1, 0, 3, 0, 1, 4, 0, 0), (2, 0, 0, 0, 2, -1, 0, 0), (6, 0, 2, 1, 0, 3, 1, 0), (0, 1, 3, 0, 1, 5, 1, 0), (4, 0, 0, 0, 0, 1, 0, 0), (0, 0, 0, 0, 0, 0, 0, 0))],
+                   ((0, 0, 0, 0, 0, 4, 1, 0), (1, 0, 3, 0, 1, 4, 0, 0), (2, 0, 0, 0, 2, -1, 0, 0), (6, 0, 2, 1, 0, 3, 1, 0), (0, 1, 3, 0, 1, 5, 1, 0), (4, 0, 0, 0, 0, 1, 0, 0), (0, 0, 0, 0, 0, 0, 0, 0), (2, 4, 0, 0, 0, 4, 0, 0), (3, 5, 2, 0, 0, -1, 0, 0), (0, 4, 0, 0, 0, -1, 0, 0), (1, 5, 4, 0, 0, -1, 0, 0))],
           bounds=lambda tier: {"name_pool": POOL, "operations": OPS, "history": "2 operations (quick) / 3 (thorough)", "models": "up to 4 open at once", "tokens": "unbounded symbolic ints"},
           outside=["models holding references into each other", "histories longer than 3", "restore_model / pickled models"]),
 ]
